@@ -140,7 +140,7 @@ type SubmitCase struct {
 var allOps = []string{
 	"dup-key", "noncheck-in-checks", "short-timeout", "empty-list",
 	"preset-state", "preset-id", "bad-key-version", "rejected-req", "wrong-req-type",
-	"unknown-plugin", "neg-timeout", "check-in-seq", "preset-attempts", "preset-registry",
+	"unknown-plugin", "neg-timeout", "check-in-seq", "preset-attempts", "preset-registry", "foreign-registry",
 	"nil-entry", "blank-plugin", "preset-reason", "preset-submit", "blank-name", "blank-descr",
 }
 
@@ -538,11 +538,13 @@ var (
 	presetReasons = []workflow.FailureReason{workflow.FRPreCheck, workflow.FRBlock, workflow.FRPostCheck, workflow.FRContCheck, workflow.FRDeferredCheck, workflow.FRStopped, workflow.FRExceedRecovery}
 	shortTimeouts = []time.Duration{1, time.Millisecond, time.Second, 4 * time.Second, 5*time.Second - 1}
 	negTimeouts   = []time.Duration{-1, -time.Second, -5 * time.Second, -30 * time.Second, -24 * time.Hour}
-	unknownPlugs  = []string{"verif/pc16.nope", "VERIF/PC16.CHECK", checkPlugName + " ", " " + workPlugName, "check"}
-	blankPlugs    = []string{"", " ", "\t\n"}
-	badVersions   = []byte{4, 1, 6, 8, 0, 15}
-	badModes      = []string{"bogus", "AUTO", " ", "auto "}
-	someTime      = time.Unix(1_700_000_000, 0).UTC()
+	// foreignPlugName is registered only in the registry that operator "foreign-registry" hangs on an action.
+	foreignPlugName = "verif/pc16.foreign"
+	unknownPlugs    = []string{"verif/pc16.nope", "VERIF/PC16.CHECK", checkPlugName + " ", " " + workPlugName, "check"}
+	blankPlugs      = []string{"", " ", "\t\n"}
+	badVersions     = []byte{4, 1, 6, 8, 0, 15}
+	badModes        = []string{"bogus", "AUTO", " ", "auto "}
+	someTime        = time.Unix(1_700_000_000, 0).UTC()
 )
 
 // applyMutation applies m to the current tree. It returns the kind label of the object hit, or "" when no object of
@@ -801,6 +803,27 @@ func applyMutation(p *workflow.Plan, m Mutation, salt uint32, k int) string {
 			return ""
 		}
 		n.action.SetRegister(registry.New())
+		return n.kindLabel()
+	case "foreign-registry":
+		// the action carries the registry of ANOTHER Workstream (as a plan object that was handed to another Workstream's
+		// Submit before does) and names a plugin that only that registry knows: for the Workstream the plan is submitted
+		// to, the plugin is not registered ("every action naming a registered plugin"), whatever it makes of the
+		// pre-set registry
+		n, ok := pick(isKind("action"))
+		if !ok {
+			return ""
+		}
+		foreign := registry.New()
+		if err := foreign.Register(&plug{name: foreignPlugName, check: n.inChecks, execs: &atomic.Int64{}}); err != nil {
+			return ""
+		}
+		n.action.Plugin = foreignPlugName
+		if n.inChecks {
+			n.action.Req = ReqCheck{Arg: "foreign"}
+		} else {
+			n.action.Req = ReqWork{Arg: "foreign", N: v}
+		}
+		n.action.SetRegister(foreign)
 		return n.kindLabel()
 	case "noncheck-in-checks":
 		n, ok := pick(func(n node) bool { return n.kind == "action" && n.inChecks })
